@@ -140,7 +140,7 @@ func init() {
 	def("make_map_neg", "n := -1", "_ = make(map[int]int, n)", "len(make(map[int]int, n))")
 	def("make_map_huge", "n := 1 << 62", "_ = make(map[int]int, n)", "len(make(map[int]int, n))")
 	// conversions
-	def("conv_slice_arrayptr", "s := []int{1, 2}", "_ = (*[4]int)(s)", "len((*[4]int)(s))")
+	def("conv_slice_arrayptr", "s := []int{1, 2}", "_ = (*[4]int)(s)", "(*[4]int)(s)[0]")
 	// comparing uncomparable interface values
 	def("cmp_eq", "var a any = []int{1}; var b any = []int{1}", "_ = a == b", "a == b")
 	def("cmp_neq", "var a any = []int{1}; var b any = []int{1}", "_ = a != b", "a != b")
